@@ -191,7 +191,7 @@ class GenericClient:
         """Facultative socket to allow cli communication"""
         if (
             self.__config["hermes"]["cli_socket"]["path"] is not None
-            or self.__config["hermes"]["cli_socket"]["dont_manage_sockfile"] is not None
+            or self.__config["hermes"]["cli_socket"]["dont_manage_sockfile"]
         ):
             self.__sock = SockServer(
                 path=self.__config["hermes"]["cli_socket"]["path"],
